@@ -339,6 +339,33 @@ pub fn run(ctx: &Ctx) -> Report {
     }
     stc.samples.truncate(1);
     total.merge(stc);
+    // two long formats of equal length in one command line that differ in a single character, at
+    // every position in turn (a cache keyed by a sampled fingerprint of the text): each action keeps
+    // its own segmentation
+    let mut st2 = Stats::new();
+    for base in ["%p,%U,%G,%m,%s,%A@,%C@,%T@,%{projid},%{fid},%u,%g,%n,%i,%b,%k,%f,%h,%y\\n", "name=%f size=%s owner=%u group=%g mode=%m links=%n inode=%i blocks=%b kilos=%k type=%y path=%p\\n"] {
+        let cs: Vec<char> = base.chars().collect();
+        for i in 0..cs.len() {
+            for repl in ['u', 'U', 'x', '%'] {
+                if cs[i] == repl {
+                    continue;
+                }
+                let mut v = cs.clone();
+                v[i] = repl;
+                let variant: String = v.into_iter().collect();
+                for (a, b) in [(base.to_string(), variant.clone()), (variant.clone(), base.to_string())] {
+                    // (the format that serves as context must itself be valid)
+                    if fmtscan::scan(&a).is_err() || fmtscan::has_undocumented_xattr_name(&a) {
+                        continue;
+                    }
+                    let v = judge_in_context(&b, &format!("-printf '{a}'"), true);
+                    st2.record(&v, stable_hash(&(&a, &b)), true, || json!({"kind": "format-context", "format": b, "context": format!("-printf '{a}'"), "after": true}));
+                }
+            }
+        }
+    }
+    st2.samples.truncate(1);
+    total.merge(st2);
     // every single-character edit of every documented element (replace by a neighbouring spelling
     // character, delete, duplicate, swap): an almost-directive is what the reference scanner says
     // it is, never the directive it resembles
